@@ -65,27 +65,6 @@ def partOfJson (j : Json) : Except String Glom.C01.Part := do
   else if let .ok t := j.getObjVal? "t" then return .t (← listOfJson stepOfJson t)
   else throw s!"bad part {j.compress}"
 
-/-- the model's observation of a read -/
-def modelRead (cs : Classes) (h : Heap) (steps : List (String × Val)) (target : Val) : Obs :=
-  match evalSteps cs h steps target with
-  | .ok r => .ok r
-  | .error (.pae _) => .pae
-  | .error (.other c) => .other c
-
-/-- `Assign(path, val).glomit` / `Delete(path).glomit` with the destination path
-    `steps ++ [("P", key)]` -/
-def modelMutate (cs : Classes) (h : Heap) (steps : List (String × Val)) (key : Val) (kind : MutKind)
-    (target : Val) : Obs :=
-  match evalSteps cs h steps target with
-  | .error (.pae _) => .pae
-  | .error (.other c) => .other c
-  | .ok r =>
-    let f : Heap → Val → Except MErr Heap := match kind with
-      | .assign v => fun h d => assignOne cs h d key v
-      | .delete => fun h d => deleteOne cs h d key
-    let (h', e) := applyForEach (stars steps) f h r
-    .mutated h' (e.map (merrName kind))
-
 def run (j : Json) : Except String Json := do
   let cs ← listOfJson clsOfJson (← j.getObjVal? "classes")
   let heap ← heapOfJson (← j.getObjVal? "heap")
@@ -137,11 +116,9 @@ def run (j : Json) : Except String Json := do
     | .other c => c
     | .mutated _ (some e) => e
     | .mutated _ none => "done"
-  let quirk := heap.zipIdx.any (fun p => seqWithDict cs heap (.ref p.2))
   return Json.mkObj [("agree", agree), ("holds", holds),
     ("model", obsToJson modelObs),
     ("timeout", implObs.isNone),
-    ("seq_with_dict", quirk),
     ("branch", s!"{kindStr}-x{nx}-X{nX}-{outcome}")]
 
 end Glom.C14.Driver
